@@ -87,7 +87,9 @@ def make_interp(run):
     from ..pyvc import TypeTag
     never = lambda name: TypeTag(name, lambda o: False)  # noqa: E731
     it.ext_modules["numpy"] = Namespace("np", memmap=never("memmap"), ndarray=never("ndarray"),
-                                        random=Namespace("np.random", RandomState=never("RandomState"), Generator=never("Generator")))
+                                        random=Namespace("np.random", RandomState=never("RandomState"),
+                                                         # np.random.Generator(bit_generator): a generator driven by that bit generator's stream
+                                                         Generator=TypeTag("Generator", lambda o: False, lambda ex_, bg: Opaque("rng", source=getattr(bg, "_attrs", {}).get("source"), bit_generator=bg))))
     def _cm(v=None):
         return Opaque("nullcontext", __enter__=Native(lambda e: v, "enter"), __exit__=Native(lambda e, *a: False, "exit"))
     it.ext_modules["contextlib"] = Namespace("contextlib", nullcontext=Native(lambda ex_, v=None: _cm(v), "nullcontext"), ExitStack=None,
